@@ -835,7 +835,10 @@ class Connection (EventMixin):
       self.info(msg)
     self.disconnected = True
     try:
-      self.ofnexus._disconnect(self.dpid)
+      # Only unregister ourselves -- a newer connection from the same
+      # datapath may have taken our place
+      if self.ofnexus.connections.get(self.dpid) is self:
+        self.ofnexus._disconnect(self.dpid)
     except:
       pass
     if self.dpid is not None:
